@@ -187,8 +187,10 @@ def model(ctx):
     runs = [("mc/DestripeFile_quick.cfg", 8)] if ctx.quick else \
            [("mc/DestripeFile_thorough.cfg", 16), ("mc/DestripeFile_mid.cfg", 16), ("mc/DestripeFile_wide.cfg", 16)]
     for cfg, wk in runs:
-        r = tlc.run("mc/MC_DestripeFile.tla", cfg, workers=wk, timeout=3400, heap="12g")
+        r = tlc.run("mc/MC_DestripeFile.tla", cfg, workers=wk, timeout=3400, heap="12g", coverage=True)
         ctx.tlc(r, cfg)
+        if r.ok:
+            tlc.require_all_actions_taken(r)
         if not r.ok:
             raise tlc.TLCError(f"the model of the current tree violates {r.invariant_violated} ({cfg}); "
                                f"the implementation layer must be replayed on the code before this is a finding:\n"
